@@ -25,27 +25,32 @@ for p in sorted(glob.glob(os.path.join(SRC, "verify_tests*.txt"))):
             if m:
                 tests[m.group(1)] = (int(m.group(2)), int(m.group(3)))
 
-# detection matrix: "### <id>" then lines "Cxx tier exit=N ... what: ..."
+# detection matrix: "### <id>" then lines "Cxx tier exit=N ... what: ..."; blocks of the same id are merged,
+# a later result of the same check replaces an earlier one (re-evaluations with a strengthened harness come later)
 det = {}
-p = os.path.join(SRC, "final-matrix.txt")
+p = os.path.join(SRC, "combined-matrix.txt")
+if not os.path.exists(p):
+    p = os.path.join(SRC, "final-matrix.txt")
 if os.path.exists(p):
     cur = None
     for l in open(p):
         l = l.rstrip("\n")
         if l.startswith("### "):
             cur = l[4:].strip()
-            det[cur] = []
+            det.setdefault(cur, {})
         elif cur and re.match(r"C\d\d (quick|thorough) exit=", l):
             m = re.match(r"(C\d\d) (\w+) exit=(\d+)(.*)", l)
             sig = ""
             w = re.search(r"what: (.*?) ::", l)
             if w:
                 sig = w.group(1).strip()
-            det[cur].append({"check": m.group(1), "tier": m.group(2), "exit": int(m.group(3)), "first_signature": sig})
+            if int(m.group(3)) in (0, 1):
+                det[cur][m.group(1)] = {"check": m.group(1), "tier": m.group(2), "exit": int(m.group(3)), "first_signature": sig}
+    det = {k: list(v.values()) for k, v in det.items()}
 
 os.makedirs(DST, exist_ok=True)
 index = []
-for rnd, prefix in ((1, "out-"), (2, "out2-"), (3, "out3-"), (4, "out4-"), (5, "out5-")):
+for rnd, prefix in ((1, "out-"), (2, "out2-"), (3, "out3-"), (4, "out4-"), (5, "out5-"), (6, "out6-")):
     for i in range(1, 19):
         pid = f"C{i:02d}"
         for v in "AB":
